@@ -59,12 +59,12 @@ Theorem C08_lh_fault_clean : forall (key val : Type) (keq : key -> key -> bool) 
 Proof. exact lh_fault_clean. Qed.
 Print Assumptions C08_lh_fault_clean.
 
-(* string node: json_object_set_string / _len; a refused set keeps contents, storage and the
-   malloc/free log *)
+(* string node: json_object_set_string / _len, source outside the node or the node's own buffer
+   ([bs0] = the contents at the call); a refused set keeps contents, storage and the malloc/free log *)
 Theorem C08_str_fault_clean : forall al s bs0 o,
-  StrProofs.InvC s bs0 -> StrProofs.op_wf o ->
+  StrProofs.InvC s bs0 -> StrProofs.op_wf bs0 o ->
   op_fault_clean (fun s s' => StrProofs.same_store s s' /\ StrProofs.InvC s' bs0) s
-    (fun s' ws => StrProofs.InvC s' (StrModel.op_bytes o) /\ Forall (StrProofs.wr_ok (StrModel.hp s')) ws)
+    (fun s' ws => StrProofs.InvC s' (StrModel.op_bytes bs0 o) /\ Forall (StrProofs.wr_ok (StrModel.hp s')) ws)
     (str_out (StrModel.str_step al s o)).
 Proof. exact str_fault_clean. Qed.
 Print Assumptions C08_str_fault_clean.
